@@ -21,6 +21,29 @@ Section Verifier.
   Definition opt_bind {A C} (o : option A) (f : A -> result C) : result C :=
     match o with None => Err EVerification | Some a => f a end.
 
+  (* the scalar vector of the combined check as a pure function of weights, challenges and proof scalars *)
+  Definition mega_scalars (fw : weights K) (n1 n padded_n : nat) (y u x w r : K)
+             (u_sq u_inv_sq sv : list K) (a b tx txb eb : K) : list K :=
+    let pad := (padded_n - n)%nat in
+    let y_inv_vec := powers (finv y) padded_n in
+    let yneg_wR := map2 fmul (wR fw) y_inv_vec ++ zeros pad in
+    let delta := ip (firstn n yneg_wR) (wL fw) in
+    let u_for_g := repeat f1 n1 ++ repeat u (padded_n - n1) in
+    let g_scalars :=
+      map2 (fun yu s_i => snd yu * (x * fst yu - a * s_i)) (combine yneg_wR u_for_g) (firstn padded_n sv) in
+    let h_scalars :=
+      map2 (fun yus lo => snd (fst yus) * (fst (fst yus) * (x * fst lo + snd lo - b * snd yus) - f1))
+           (combine (combine y_inv_vec u_for_g) (firstn padded_n (rev sv)))
+           (combine (wL fw ++ zeros pad) (wO fw ++ zeros pad)) in
+    let xx := x * x in let rxx := r * xx in let xxx := x * xx in
+    let T_scalars := [r * x; rxx * x; rxx * xx; rxx * xxx; rxx * xx * xx] in
+    [w * (tx - a * b) + r * (xx * (wc fw + delta) - tx);
+     - eb - r * txb]
+    ++ g_scalars ++ h_scalars
+    ++ [x; xx; xxx; u * x; u * xx; u * xxx]
+    ++ map (fun wVi => wVi * rxx) (wV fw)
+    ++ T_scalars ++ u_sq ++ u_inv_sq.
+
   (* Verifier::verification_scalars; [cap] = bp_gens.gens_capacity *)
   Definition verification_scalars (cap : nat) (s : vstate K MO) (p : proof_t) : result verifier_out :=
     let tr0 := append_u64 (v_tr s) "m" (length (v_V s)) in
@@ -55,28 +78,9 @@ Section Verifier.
     match ipp_verification_scalars RO tr15 padded_n (ipp p) with
     | Err _ => Err EVerification
     | Ok (u_sq, u_inv_sq, sv, tr16, us) =>
-    let a := ipp_a (ipp p) in let b := ipp_b (ipp p) in
-    let y_inv := finv y in
-    let y_inv_vec := powers y_inv padded_n in
-    let yneg_wR := map2 fmul (wR fw) y_inv_vec ++ zeros pad in
-    let delta := ip (firstn n yneg_wR) (wL fw) in
-    let u_for_g := repeat f1 n1 ++ repeat u (n2 + pad) in
-    let g_scalars :=
-      map2 (fun yu s_i => snd yu * (x * fst yu - a * s_i)) (combine yneg_wR u_for_g) (firstn padded_n sv) in
-    let h_scalars :=
-      map2 (fun yus lo => snd (fst yus) * (fst (fst yus) * (x * fst lo + snd lo - b * snd yus) - f1))
-           (combine (combine y_inv_vec u_for_g) (firstn padded_n (rev sv)))
-           (combine (wL fw ++ zeros pad) (wO fw ++ zeros pad)) in
     let '(r, _) := challenge RO tr16 "r" in     (* drawn on a clone: the history is not extended *)
-    let xx := x * x in let rxx := r * xx in let xxx := x * xx in
-    let T_scalars := [r * x; rxx * x; rxx * xx; rxx * xxx; rxx * xx * xx] in
-    let scalars :=
-      [w * (t_x p - a * b) + r * (xx * (wc fw + delta) - t_x p);
-       - e_blinding p - r * t_x_blinding p]
-      ++ g_scalars ++ h_scalars
-      ++ [x; xx; xxx; u * x; u * xx; u * xxx]
-      ++ map (fun wVi => wVi * rxx) (wV fw)
-      ++ T_scalars ++ u_sq ++ u_inv_sq in
+    let scalars := mega_scalars fw n1 n padded_n y u x w r u_sq u_inv_sq sv
+                                (ipp_a (ipp p)) (ipp_b (ipp p)) (t_x p) (t_x_blinding p) (e_blinding p) in
     Ok (mkVO scalars (mkV tr16 (v_cons s2) (v_num s2) (v_V s2) (v_def s2) (v_pend s2))
              [y; z; u; x; w; r] us ev n1 padded_n fw sv)
     end)))))
